@@ -258,23 +258,29 @@ theorem copies_documents_only_grow (w : World) (ops : List CopyOp) (hb : w.Below
     (∀ k, (∀ op ∈ ops, op.dst ≠ k) → (w.run ops).1.docs[k]? = w.docs[k]?) :=
   run_grows w ops hb
 
-/-- FULL, every sequence.  Every copy has the value of its source (so it is deep-equal to it and
-    renders identically), consists only of objects allocated by its own operation, and the walk
-    writes only to those. -/
+/-- FULL, every sequence (of `DeepCopy` and `Filter`-with-a-tag-filter calls).  Every result has
+    the value of its source without the subtrees its filter rejects — for `DeepCopy` the value of
+    its source, so it is deep-equal to it and renders identically —, consists only of objects
+    allocated by its own operation, and the walk writes only to those. -/
 theorem copies_fresh_and_equal (w : World) (ops : List CopyOp) (hb : w.Below) :
     ∀ e ∈ eventsOf (w.run ops).2,
-      deepEqual e.source.erase e.result.copy.erase = true ∧
-      e.result.copy.erase = e.source.erase ∧
+      pruneNode e.op.keep e.source.erase = some e.result.copy.erase ∧
+      (e.op.filter = none → e.result.copy.erase = e.source.erase ∧
+        deepEqual e.source.erase e.result.copy.erase = true) ∧
       (∀ i ∈ e.result.copy.ids, w.next ≤ i ∧ e.start ≤ i ∧ i < e.result.next) ∧
       (∀ i ∈ e.result.writes, e.start ≤ i ∧ i < e.result.next) ∧
       (∀ d ∈ w.docs, ∀ i ∈ e.result.copy.ids, i ∉ idsList d.nodes) := by
   intro e he
   obtain ⟨h1, _, h3, h4, h5⟩ := (run_events w ops hb).1 e he
-  refine ⟨by rw [h3]; exact Gedcom.deepEqual_refl _, h3, ?_, h5,
-    run_copies_outside_documents w ops hb e he⟩
-  intro i hi
-  have := h4 i hi
-  exact ⟨by omega, this.1, this.2⟩
+  refine ⟨h3, ?_, ?_, h5, run_copies_outside_documents w ops hb e he⟩
+  · intro hn
+    have : e.op.keep = fun _ => true := by unfold CopyOp.keep; rw [hn]
+    rw [this, pruneNode_all] at h3
+    injection h3 with h3
+    exact ⟨h3.symm, by rw [← h3]; exact Gedcom.deepEqual_refl _⟩
+  · intro i hi
+    have := h4 i hi
+    exact ⟨by omega, this.1, this.2⟩
 
 /-- FULL, every sequence.  Different copies made by a sequence share no object. -/
 theorem copies_pairwise_disjoint (w : World) (ops : List CopyOp) (hb : w.Below) :
@@ -282,18 +288,20 @@ theorem copies_pairwise_disjoint (w : World) (ops : List CopyOp) (hb : w.Below) 
       (fun a b => ∀ i ∈ a.result.copy.ids, i ∉ b.result.copy.ids) :=
   run_disjoint w ops hb
 
-/-- FULL, every sequence.  Copying the same object of a document twice — anywhere in a sequence,
-    into any destinations, the source's own document included — gives results that are deep-equal
+/-- FULL, every sequence.  Copying (or filtering with the same filter) the same object of a
+    document twice — anywhere in a sequence, into any destinations, the source's own document
+    included — gives results that are deep-equal
     to each other and to the source and share no object: an earlier copy never changes what a
     later one copies. -/
 theorem copy_twice (w : World) (ops : List CopyOp) (hb : w.Below) (a b : CopyEvent)
     (hab : [a, b].Sublist (eventsOf (w.run ops).2))
     (hsrc : a.op.src = b.op.src) (hnode : a.op.node = b.op.node)
+    (hfil : a.op.filter = b.op.filter)
     (hin : ∃ s x, w.docs[a.op.src]? = some s ∧ findRec a.op.node s.nodes = some x) :
     deepEqual a.result.copy.erase b.result.copy.erase = true ∧
-    deepEqual a.source.erase a.result.copy.erase = true ∧
+    (a.op.filter = none → deepEqual a.source.erase a.result.copy.erase = true) ∧
     (∀ i ∈ a.result.copy.ids, i ∉ b.result.copy.ids) :=
-  run_copy_twice w ops hb a b hab hsrc hnode hin
+  run_copy_twice w ops hb a b hab hsrc hnode hfil hin
 
 /-- FULL, every sequence.  The pointer index and the families cache of every document stay
     coherent: `NodeByPointer` answers what a scan of the record list would (the record stored last
@@ -321,7 +329,7 @@ example :
     let fam : INode := .mk 0 (lit "FAM") [] (lit "F1")
       [.mk 1 (lit "HUSB") (lit "@I1@") [] [], .mk 2 (lit "WIFE") (lit "@I2@") [] []]
     let w : World := ⟨[DocSt.ofRecords [fam], DocSt.ofRecords []], 3⟩
-    let r := w.run [⟨0, 0, 1⟩, ⟨0, 0, 1⟩]
+    let r := w.run [{ src := 0, node := 0, dst := 1 }, { src := 0, node := 0, dst := 1 }]
     (eventsOf r.2).map (fun e => (e.result.copy.ids, roleFamilies e.ctx (e.start + 3) e.source)) =
       [([3, 4, 5], [6, 6]), ([7, 8, 9], [10, 10])] ∧
     r.1.docs.map (fun d => d.nodes.map (·.id)) = [[0], [6, 10]] ∧
@@ -345,7 +353,7 @@ theorem filter_into_document (ctx : Option (Nat × Str)) (dst d' : DocSt) (next 
       (added = [] ↔ roleIds r.copy = []) ∧ added.length ≤ 1 ∧
       ∀ x ∈ added, x.tag = tagFAM ∧ x.value = [] ∧ x.kids = [] ∧ next ≤ x.id ∧ x.id < r.next ∧
         x.id ∉ r.copy.ids) ∧
-    (dst.coherent → d'.coherent) :=
+    (dst.coherent → d'.coherent) ∧ next < r.next :=
   filter_effect ctx dst d' next keep t r h
 
 /-- FULL.  `Filter` returns nil exactly when the root's tag is rejected; the destination is then
